@@ -16,12 +16,14 @@ def generate(ctx):
     rng = ctx.rng
     for _ in range(ctx.n(200, 10000)):
         cls = rng.choice(["generic-tree", "generic-tree", "generic-cyclic", "collinear-chain", "axis-chain",
-                          "partly-collinear", "two-atom", "two-atom", "one-atom"])
+                          "tilted-axis-chain", "partly-collinear", "nearly-collinear", "nearly-collinear",
+                          "two-atom", "two-atom", "one-atom"])
         pos, bonds, cls = E.gen_ref(rng, cls)
         axis, theta, t = E.gen_rigid(rng)
         yield {"ref": {"pos": pos, "bonds": [list(b) for b in bonds]}, "tgt": E.gen_tgt(rng, pos, cls),
                "s": E.gen_scale(rng), "mode": "rigid", "cls": cls, "seed": rng.randrange(2 ** 31),
-               "axis": axis, "theta": theta, "t": t}
+               "axis": axis, "theta": theta, "t": t,
+               "ident": rng.choice(["fresh", "fresh", "construction-object", "reused-object"])}
 
 
 def evaluate(ctx, case):
@@ -36,6 +38,7 @@ def evaluate(ctx, case):
     ctx.case(case, nontrivial=case["theta"] != 0.0 or any(case["t"]),
              sample={k: case[k] for k in ("cls", "s", "axis", "theta", "t")} | {"n_ref": n, "n_tgt": len(tgt)})
     ctx.count("cls:" + case["cls"])
+    ctx.count("ident:" + case.get("ident", "fresh"))
     out0, out = impl["out0"], impl["out"]
     argpos = impl["argpos"]
     scale = max(1.0, float(np.abs(argpos).max()))
